@@ -27,7 +27,6 @@ CHECK_DEADLOCK FALSE
 """ % (ALPHABET, maxlen)
 
 
-TRACE_CFG = "SPECIFICATION Spec\nPOSTCONDITION AllConsumed\nCHECK_DEADLOCK FALSE\n"
 
 
 def trace_key(ev):
@@ -43,23 +42,12 @@ def trace_key(ev):
 
 
 def validate_trace(path, name, v, timeout=1800):
-    r = core.tlc("Trace_Sanitizer", TRACE_CFG, name, workers=1, deque=True, xss=True, xmx="4g",
-                 env_extra={"TRACE": path}, timeout=timeout)
-    bad = []
-    with open(r["out_path"]) as f:
-        for line in f:
-            if line.startswith('"MISMATCH '):
-                bad.append(int(json.loads(line).split()[1]))
-            if line.startswith('"UNCONSUMED'):
-                raise core.ToolError("trace not consumed: " + line)
-    events = [json.loads(x) for x in open(path)]
-    for i in bad:
-        ev = events[i - 1]
+    events, bad, r = core.trace_validate("Trace_Sanitizer", path, name, timeout=timeout)
+    for i, ev in bad:
         m = dict(key=trace_key(ev), line=i, trace=path,
                  input=core.cp_text(ev["in"]), observed=("panic" if ev["panic"] else core.cp_text(ev["out"])))
         if "cfg" in ev:
             m["cfg"] = ev["cfg"]
-        m["event"] = ev
         v.add([m])
     return len(events), len(bad), r
 
